@@ -879,7 +879,7 @@ def gen_loop_scenario(rng: random.Random) -> dict:
     sc = {"sims": sims, "connects": connects, "until": rng.randint(2, 4), "max_loop": ml,
           "lazy": rng.random() < 0.5, "cache": rng.random() < 0.5, "beh_seed": rng.randrange(10 ** 9),
           "sparse_persistent": False, "future_outputs": rng.random() < 0.4, "loop_len": max(0, ml + rng.choice([-1, 0, 0, 1, 2]))}
-    if rng.random() < 0.15:
+    if rng.random() < 0.2:
         sc["loop_len"] = 10 ** 6        # a loop that never settles: only the guard ends it
         sc["future_outputs"] = False
     # future_outputs: a sub-step of the loop may date its events into the future; the loop then resumes at the
